@@ -57,8 +57,8 @@ func (t *Total) Validate() error {
 // Validate checks the category total's code and its rates.
 func (ct *CategoryTotal) Validate() error {
 	return validation.ValidateStruct(ct,
-		validation.Field(&ct.Code),
-		validation.Field(&ct.Rates),
+		validation.Field(&ct.Code, validation.Required),
+		validation.Field(&ct.Rates, validation.Required),
 	)
 }
 
